@@ -222,7 +222,7 @@ def h_check_current(serial: bytes, which: int, storage: str) -> None:
     reached()
 
 
-def h_read_current(use_sp: bool, when: int, also_write: bool, storage: str, rolled: bool = False) -> None:
+def h_read_current(use_sp: bool, when: int, also_write: bool, storage: str, rolled: bool = False, late: bool = False) -> None:
     """Connection level: a transaction declares with readCurrent(x) that it depends on x being current;
     another connection commits x at a solver-chosen moment; the commit must then fail
     (ReadConflictError, or ConflictError if x is also written) and store nothing - with and without a
@@ -247,6 +247,7 @@ def h_read_current(use_sp: bool, when: int, also_write: bool, storage: str, roll
         tm, tmo = transaction.TransactionManager(), transaction.TransactionManager()
         c, co = db.open(tm), db.open(tmo)
     w = choose(when, 4)         # 0: never, 1: before readCurrent, 2: after readCurrent, 3: after the savepoint / last write
+    assume(rolled or not late)  # late: the dependency is declared only while x is tentatively modified (then rolled back)
     with untraced():
         def other():
             tmo.begin()
@@ -257,7 +258,8 @@ def h_read_current(use_sp: bool, when: int, also_write: bool, storage: str, roll
         x.v                                     # loaded: the transaction has seen revision 1 of x
         if w == 1:
             other()
-        c.readCurrent(x)
+        if not late:
+            c.readCurrent(x)
         if w == 2:
             other()
         y.v = 2
@@ -266,6 +268,8 @@ def h_read_current(use_sp: bool, when: int, also_write: bool, storage: str, roll
             # declaration made before still stands
             sp1 = tm.savepoint()
             x.v = 9
+            if late:
+                c.readCurrent(x)
             tm.savepoint()
             sp1.rollback()
             y.v = 2
@@ -283,7 +287,7 @@ def h_read_current(use_sp: bool, when: int, also_write: bool, storage: str, roll
         except ConflictError:               # ReadConflictError is a ConflictError
             ok = False
             tm.abort()
-        note('case', 'sp=%s when=%d write=%s rolled=%s' % (use_sp, w, also_write, rolled))
+        note('case', 'sp=%s when=%d write=%s rolled=%s late=%s' % (use_sp, w, also_write, rolled, late))
         check(ok == (w == 0), 'commit of a transaction whose declared dependency changed was accepted (or a valid one refused)', w, ok)
         if not ok:
             check(s.lastTransaction() == before, 'failed commit stored a transaction')
